@@ -255,6 +255,11 @@ def run(ctx, report):
                 R4.ok(iid, sample='%s %s: offset @%d[addr], selector @16[addr+%d]' % (inst.name, inst.form, w, w // 8))
     report.analysed['far_pointer_forms'] = n_far
 
+    # ---------------------------------------------------------------- D5 the read set of one assignment (ExprAff.get_r), evaluated
+    R5 = report.rule('C08.D5', 'an assignment reports the reads of its source, its store address and segment, and the written cell when the source reads it', floor=1)
+    from .c16 import aff_reads_rule
+    aff_reads_rule(ctx, R5)
+
 
 def _derived_cell(mems, m):
     """A cell whose address is computed from the operand's address (bit-string instructions address base + offset)."""
